@@ -294,13 +294,9 @@ theorem truthInv_step (hist : List Ev) (s : S) (e : Ev) (s' : S) (I : TruthInv h
         refine ⟨?_, fastOK_of_none rfl⟩
         have h1 := (I pid sl hs).1
         have hrel : isRel pid (.pk (.pubrel pid)) := rfl
-        rcases hph with hph | hph
-        · simp only [PhaseOK, hph] at h1 ⊢
-          obtain ⟨_, r, hr, c⟩ := h1
-          exact ⟨hk, r, hr, chain_snoc (Ps := [isReq sl.op pid, isRx r]) c hrel⟩
-        · simp only [PhaseOK, hph] at h1 ⊢
-          obtain ⟨_, r, hr, c⟩ := h1
-          exact ⟨hk, r, hr, chain_mono _ c⟩
+        simp only [PhaseOK, hph] at h1 ⊢
+        obtain ⟨_, r, hr, c⟩ := h1
+        exact ⟨hk, r, hr, chain_snoc (Ps := [isReq sl.op pid, isRx r]) c hrel⟩
       · exact truth_keep _ I rfl
     · simp at h
   | wrOk =>
